@@ -103,7 +103,7 @@ type c15Obs struct {
 
 var scenSeq int64
 
-const streamChunks = 50 // 1 s of streaming
+const streamChunks = 5 // chunks still sent after the harness lets a stream finish
 
 type liveReq struct {
 	spec   c15Req
@@ -273,7 +273,7 @@ func runScenario(c c15Case) interface{} {
 		case "connecting":
 			path += "?gate=" + lr.key + "&sid=" + lr.key
 		case "streaming":
-			path += fmt.Sprintf("?watch=true&chunks=%d&sid=%s", streamChunks, lr.key)
+			path += fmt.Sprintf("?watch=true&chunks=%d&sgate=%s&sid=%s", streamChunks, lr.key, lr.key)
 		default:
 			path += "?sid=" + lr.key
 		}
@@ -300,10 +300,12 @@ func runScenario(c c15Case) interface{} {
 			}
 			lr.mu.Unlock()
 			sc := bufio.NewReader(resp.Body)
-			n, clean := 0, false
+			n, clean, sawEnd := 0, false, false
 			for {
 				line, err := sc.ReadString('\n')
-				if strings.HasPrefix(line, "{\"type\"") && strings.HasSuffix(line, "\n") {
+				if strings.HasPrefix(line, "{\"type\":\"END\"") {
+					sawEnd = true
+				} else if strings.HasPrefix(line, "{\"type\"") && strings.HasSuffix(line, "\n") {
 					n++
 					lr.mu.Lock()
 					lr.chunks = n
@@ -319,7 +321,7 @@ func runScenario(c c15Case) interface{} {
 			lr.obs.Chunks = n
 			if resp.StatusCode == 200 && clean {
 				if r.Phase == "streaming" {
-					lr.obs.Complete = n == streamChunks
+					lr.obs.Complete = sawEnd
 				} else {
 					lr.obs.Complete = true
 				}
